@@ -57,6 +57,8 @@ fixed('F22', ['C06'], 'A5r', 'adsg_core.graph.choices:get_mod_apply_selection_ch
       'an instance made infeasible by selecting X (incompatible with T, which every option of another choice derives) was reported feasible again after the next, unrelated selection - only when name(X) sorts before name(T): the marking edge X->T was treated as an ordinary constraint and removed with T (witness/w22)', 'witness/w22', 'stays infeasible when further choices')
 fixed('F23', ['C02', 'C01'], 'A5u', 'adsg_core.graph.adsg_basic:BasicDSG.set_start_nodes:A5u:unreachable-from-start-removed',
       'nodes of a derivation cycle that no start node derives survived set_start_nodes (only what floating *root* nodes derive was removed); a selection choice below such a cycle stayed in every instance and GraphProcessor.get_graph raised "Selection-choice nodes left" for every vector (start S, S->A, choice C under A; cycle X->Y->X with choice D under Y: witness/w23)', 'witness/w23', 'also removes derivation cycles')
+fixed('F24', ['C14', 'C01'], 'A5q', 'adsg_core.optimization.hierarchy.fast:FastHierarchyAnalyzer.get_graph._get_graph:A5q:candidate-error:_get_graph:RuntimeError#1',
+      'the fast encoder raised for in-range vectors of a feasible design space: an option that necessarily confirms two incompatible nodes (S -> C0[A|B|D], B -> C, B -> C1[E|F], C x B) gives an infeasible graph in which C1 is never activated -> RuntimeError "Selection-choice nodes left" for [1,*]; with a second choice level the infeasible graph still named a removed choice node -> NetworkXError (witness/w24; 31 of 1800 random graphs)', 'witness/w24', 'rejects a candidate vector whose graph becomes infeasible')
 known('F7', ['C07', 'C03'], 'A6', 'adsg_core.optimization.assign_enc.encoding:EagerEncoder.get_matrix:A6:raw-vector-returned:return (list(vector) + extra_vector, matrix[i_mat, :, :])',
       'on a direct hit the eager encoder returns the input vector instead of the stored -1-marked one, so conditionally inactive variables are reported active (30 vectors in witness/w07)',
       'witness/w07', 'returning the stored vector changes what is_valid_vector(get_matrix(x)[0]) answers and breaks 6 existing tests; not a small repair')
